@@ -698,7 +698,10 @@ class Deriver:
                     problems.append('does not clear self.__dict__')
             obs.append(('_Serving.%s assigns only attributes of self' % mname, not problems, '; '.join(problems)))
         # _ThreadLocalProxy: every accessor goes through getattr(serving, self.__attrname__)
-        px = [n for n in init.body if isinstance(n, ast.ClassDef) and n.name == '_ThreadLocalProxy']
+        import copy
+        from ..translate import pynorm
+        ninit = pynorm.normalise(copy.deepcopy(init))        # an extracted lookup helper is read in place
+        px = [n for n in ninit.body if isinstance(n, ast.ClassDef) and n.name == '_ThreadLocalProxy']
         problems = []
         if len(px) != 1:
             problems.append('class not found')
